@@ -16,7 +16,9 @@ namespace DriverC13
 open Proto Shutdown
 
 inductive Op where
-  | conn | unary (c s : Nat) | stream (c n s : Nat) | adv (k : Nat) | sig | endInc | accErr
+  | conn | unary (c s : Nat) | stream (c n s : Nat)
+  | cstream (c m s : Nat) | bidi (c m n s : Nat) | reqMsg (k : Nat)
+  | adv (k : Nat) | sig | endInc | accErr
   | dropConn (c : Nat) | cancel (k : Nat) | wait (secs : Nat)
 deriving Repr
 
@@ -49,6 +51,15 @@ def parseOp (body : List Char) : Option Op :=
     match splitColon rest with
     | [c, n, s] => do some (.stream (← natOf c) (← natOf n) (← natOf s))
     | _ => none
+  | 'Q' :: rest =>
+    match splitColon rest with
+    | [c, m, s] => do some (.cstream (← natOf c) (← natOf m) (← natOf s))
+    | _ => none
+  | 'B' :: rest =>
+    match splitColon rest with
+    | [c, m, n, s] => do some (.bidi (← natOf c) (← natOf m) (← natOf n) (← natOf s))
+    | _ => none
+  | 'M' :: rest => (natOf rest).map .reqMsg
   | 'A' :: rest => (natOf rest).map .adv
   | 'D' :: rest => (natOf rest).map .dropConn
   | 'X' :: rest => (natOf rest).map .cancel
@@ -245,15 +256,22 @@ def Sim.settle (m : Sim) : Sim :=
   let m := (m.runAll (4 * fuelOf m + 4000)).record
   { m with t := m.t + 1 }
 
-def Sim.issue (m : Sim) (c : Nat) (chunks : List (List Item)) : Sim :=
+def Sim.issue (m : Sim) (c : Nat) (chunks : List (List Item)) (req : Nat := 0) : Sim :=
   let j := match m.st.conns[c]? with | some cn => cn.calls.length | none => 0
-  let m := m.apply (.issue c chunks)
+  let m := m.apply (.issue c chunks req)
   { m with callMap := m.callMap ++ [(c, j)] }
 
 def Sim.doOp (m : Sim) : Op → Sim
   | .conn => m.apply .offer
   | .unary c s => m.issue c (unaryChunks s)
   | .stream c n s => m.issue c (streamChunks n s)
+  -- client-streaming: the answer is unary-shaped, produced once the request stream is complete
+  | .cstream c r s => m.issue c (unaryChunks s) r
+  -- bidi: the answer is stream-shaped; its status waits for the end of the request stream
+  | .bidi c r n s => m.issue c (streamChunks n s) r
+  | .reqMsg k => match m.callMap[k]? with
+    | some (c, j) => m.apply (.reqSend c j)
+    | none => m
   | .adv k => match m.callMap[k]? with
     | some (c, j) => m.apply (.permit c j)
     | none => m
@@ -281,7 +299,12 @@ def simulate (sc : Script) (biased : Bool) (accW startW : List Bool) : Sim :=
   let m0 : Sim := { st := init sc.graceful biased sc.age, t := 0, closedAt := [], doneAt := [],
                     resolvedAt := none, callMap := [], accW := accW, startW := startW }
   let m := sc.steps.foldl Sim.doStep m0
-  -- drain: every handler runs freely
+  -- drain: every client completes its request stream, every handler runs freely
+  let m := m.callMap.foldl (fun m cj =>
+    let left := match m.st.conns[cj.1]? with
+      | some cn => match cn.calls[cj.2]? with | some k => k.reqLeft | none => 0
+      | none => 0
+    (List.range left).foldl (fun m _ => m.apply (.reqSend cj.1 cj.2)) m) m
   let m := (m.apply .freeRun).settle
   -- every client goes away
   let m := (connIdx m.st).foldl (fun m c => m.apply (.peerDrop c)) m
@@ -360,6 +383,8 @@ def analyse (sc : Script) : List ConnInfo × List CallInfo :=
     match st.op with
     | .unary c s => some (i, g, c, Spec.Shutdown.planUnary s)
     | .stream c n s => some (i, g, c, Spec.Shutdown.planStream n s)
+    | .cstream c _ s => some (i, g, c, Spec.Shutdown.planClientStream s)
+    | .bidi c _ n s => some (i, g, c, Spec.Shutdown.planBidi n s)
     | _ => none
   let calls : List CallInfo := (callOps.zipIdx).map fun ((i, g, c, plan), k) =>
     let droppedEver := sc.steps.any fun s => match s.op with
